@@ -22,3 +22,21 @@ func H_globals(e int, eq bool) {
 	}
 	verifAssert(verifLiveGoroutines() == 0, "C18: ParseGlobals left a scanner goroutine behind")
 }
+
+// expression contexts (as parse.exprCtx): the symbolic bytes go between pre and post
+var c06ExprCtx = []struct{ pre, post string }{
+	{"", ""}, {"1 ", ""}, {"$x.", ""}, {"$x[", ""}, {"['a':", ""}, {"f(", ""}, {"'s", ""}, {"1 ? ", ""}, {"-", ""},
+	{"not ", ""}, {"1 + ", " 2"}, {"(", ")"}, {"[", "]"}, {"2 * ", ""}, {"1 ?: ", ""}, {"0x", ""}, {"1.", ""}, {"1e", ""},
+	{"'\\u", ""}, {"max(1, ", ""}, {"'ab\\u", "'"}, {"['\\u", "': 1]"}, {"[1, ", ""}, {"(", ""},
+}
+
+// H_globalsSym: ParseGlobals on "g = <pre><k symbolic bytes><post>": a map or an error for every
+// byte values (line breaks and further '=' included), never a panic, no goroutine left.
+func H_globalsSym(ctx, k int) {
+	c := c06ExprCtx[ctx]
+	in := "// comment\ng = " + c.pre + verifString(k) + c.post + "\nh = 2\n"
+	verifObserve("in", in)
+	m, err := ParseGlobals(strings.NewReader(in))
+	verifAssert((m == nil) == (err != nil), "C06: ParseGlobals result is neither (map, nil) nor (nil, err)")
+	verifAssert(verifLiveGoroutines() == 0, "C18: ParseGlobals left a scanner goroutine behind")
+}
